@@ -387,35 +387,116 @@ def translate_more_core(repo):
 
 
 GEN_INVOKE = os.path.join(vlib.COQ, "C29", "GenInvoke.v")
-INVOKE_EVENTS = [(r"Py_INCREF\(cb_args\)\s*;", "GInc"), (r"Py_X?DECREF\(cb_args\)\s*;", "GDec"),
+INVOKE_EVENTS = [(r"Py_INCREF\(\s*cb_args\s*\)\s*;", "GInc"), (r"Py_X?DECREF\(\s*cb_args\s*\)\s*;", "GDec"),
                  (r"goto\s+error\s*;", "GFail"), (r"\bdone\s*:", "GDoneLabel"), (r"\breturn\s*;", "GReturn"),
                  (r"\berror\s*:", "GErrorLabel"), (r"goto\s+done\s*;", "GGotoDone")]
+# calls during which no Python code can run (everything else that is called is a call-out, GCall: PyObject_Call*,
+# convert_from_object_fficallback (__int__/__float__/__index__), Py_DECREF/Py_XDECREF of another object (finalizers),
+# PyErr_NormalizeException, _my_PyErr_WriteUnraisable (sys.unraisablehook, sys.stderr.write), the error-capture
+# helpers, and any function this list does not know)
+INVOKE_PURE = {"PyTuple_GET_ITEM", "PyTuple_GET_SIZE", "PyTuple_SET_ITEM", "PyTuple_New", "convert_to_object",
+               "memcpy", "PyBytes_AS_STRING", "PyBytes_GET_SIZE", "PyErr_Fetch", "PyErr_Occurred", "SIGNATURE",
+               "Py_INCREF", "Py_XINCREF", "if", "for", "while", "switch", "return", "sizeof"}
+SIGNATURE_DEFINE = re.compile(r"#\s*define\s+SIGNATURE\(i\)\s+\(\(CTypeDescrObject \*\)PyTuple_GET_ITEM\(signature, i\)\)")
+INVOKE_HEAD = """(* REGENERATED on every run by tools/props/c29.py (translate_invoke) from general_invoke_callback() in
+   src/c/_cffi_backend.c, in source order: Py_INCREF(cb_args) / Py_DECREF(cb_args); every read of the info
+   tuple cb_args or through a pointer borrowed from it (GUse: PyTuple_GET_ITEM(cb_args, i), SIGNATURE(i),
+   ct, signature, py_ob, py_rawerr, onerror_cb, ... found by following `x = PyTuple_GET_ITEM(borrowed, i)` /
+   `x = borrowed->field`); every call-out during which Python code may run (GCall: every call of a function
+   outside a short list of known-pure ones); every `goto error;` of the main part, the labels done: / error:,
+   `return;` and `goto done;`.  The two branches of an if/else are listed one after the other.
+   The committed copy is GenInvoke.v.snapshot.  Do not edit. *)
+From Coq Require Import List.
+Import ListNotations.
+From Cffi Require Import C29.Invoke.
+
+"""
 
 
-def translate_invoke(repo):
-    """Py_INCREF/Py_DECREF of the info tuple, the `goto error` exits, labels, return and `goto done` of
-    general_invoke_callback(), in source order"""
+def _invoke_body(repo):
     try:
-        text = _strip_comments(open(os.path.join(repo, "src", "c", "_cffi_backend.c")).read())
+        raw = open(os.path.join(repo, "src", "c", "_cffi_backend.c")).read()
     except OSError as e:
         raise Untranslatable(str(e))
+    text = _strip_comments(raw)
     ms = list(re.finditer(r"static void general_invoke_callback\([^{;]*\)\s*\{", text))
     if len(ms) != 1:
         raise Untranslatable("general_invoke_callback: header found %d times" % len(ms))
     end = text.find("\n}\n", ms[0].end())
     if end < 0:
         raise Untranslatable("general_invoke_callback: end of function not found")
-    body = "\n".join(l for l in text[ms[0].end():end].split("\n") if not l.strip().startswith("#"))
+    lines = text[ms[0].end():end].split("\n")
+    for l in lines:
+        t = l.strip()
+        if t.startswith("#") and not (SIGNATURE_DEFINE.fullmatch(t) or re.fullmatch(r"#\s*undef\s+SIGNATURE", t)):
+            raise Untranslatable("general_invoke_callback: preprocessor line %r is outside the translated subset" % t)
+    body = "\n".join(l for l in lines if not l.strip().startswith("#"))
+    body = re.sub(r'"(?:[^"\\\n]|\\.)*"', '""', body)            # string literals mention no variable
+    if "SIGNATURE(" in body and not any(SIGNATURE_DEFINE.fullmatch(l.strip()) for l in lines):
+        raise Untranslatable("general_invoke_callback: SIGNATURE(i) is not PyTuple_GET_ITEM(signature, i)")
+    return body
+
+
+def _borrowed_names(body):
+    """cb_args and every local that is assigned a pointer borrowed from it (transitively)"""
+    names = {"cb_args"}
+    cast = r"(?:\(\s*[A-Za-z_][\w\s]*\*+\s*\)\s*)*"
+    assigns = re.findall(r"\b([A-Za-z_]\w*)\s*=(?!=)\s*([^;]*);", body)
+    changed = True
+    while changed:
+        changed = False
+        for lhs, rhs in assigns:
+            if lhs in names:
+                continue
+            rhs = re.sub(r"^" + cast, "", rhs.strip())
+            m = re.match(r"PyTuple_GET_ITEM\(\s*([A-Za-z_]\w*)\s*,", rhs)
+            m2 = re.fullmatch(r"([A-Za-z_]\w*)\s*->\s*\w+", rhs)
+            if (m and m.group(1) in names) or (m2 and m2.group(1) in names) or \
+                    (rhs.startswith("SIGNATURE(") and "signature" in names):
+                names.add(lhs)
+                changed = True
+    return names
+
+
+def translate_invoke(repo):
+    """the events of general_invoke_callback() in source order (see INVOKE_HEAD)"""
+    body = _invoke_body(repo)
     if len(re.findall(r"\bcb_args\s*=[^=]", body)) != 1 or "PyObject *cb_args = (PyObject *)userdata;" not in body:
         raise Untranslatable("general_invoke_callback: cb_args is not simply the userdata")
-    for bad in ("Py_CLEAR(cb_args", "Py_SETREF(cb_args", "Py_XSETREF(cb_args", "Py_NewRef(cb_args", "Py_XINCREF(cb_args"):
+    for bad in ("Py_CLEAR(", "Py_SETREF(", "Py_XSETREF(", "Py_NewRef(", "Py_XNewRef(", "Py_XINCREF(cb_args"):
         if bad in body:
             raise Untranslatable("general_invoke_callback: %s is outside the translated subset" % bad)
-    found = []
+    names = _borrowed_names(body)
+    if not {"ct", "signature", "py_ob"} <= names:
+        raise Untranslatable("general_invoke_callback: ct / signature / py_ob are not read from the tuple: %r" % sorted(names))
+    found, taken = [], []
     for rx, ev in INVOKE_EVENTS:
-        found += [(m.start(), ev) for m in re.finditer(rx, body)]
+        for m in re.finditer(rx, body):
+            found.append((m.start(), ev))
+            taken.append((m.start(), m.end()))
+    for nm in names:
+        if re.search(r"&\s*%s\b" % nm, body):
+            raise Untranslatable("general_invoke_callback: address of %s taken" % nm)
+    for m in re.finditer(r"\b(%s)\b(?!\s*\()" % "|".join(sorted(names)), body):
+        if any(a <= m.start() < b for a, b in taken):
+            continue                                            # the INCREF / DECREF of cb_args itself
+        before, after = body[:m.start()].rstrip(), body[m.end():].lstrip()
+        if before.endswith("*") and re.match(r"[;,]", after) and not before.endswith("**"):
+            # `PyObject *x;` — but `a * x;` cannot occur as a statement here
+            continue
+        if re.match(r"=(?!=)", after):
+            continue                                            # the local itself is (re)assigned
+        found.append((m.start(), "GUse"))
+    for m in re.finditer(r"\b([A-Za-z_]\w*)\s*\(", body):
+        if any(a <= m.start() < b for a, b in taken):
+            continue
+        fn = m.group(1)
+        if fn == "SIGNATURE":
+            found.append((m.start(), "GUse"))
+        elif fn not in INVOKE_PURE:
+            found.append((m.start(), "GCall"))
     events = [ev for _, ev in sorted(found)]
-    # shape: main part (GInc/GDec/GFail) ; done: ... return; error: ... goto done;
+    # shape: main part ; done: ... return; error: ... goto done;
     try:
         d, r, e, g = (events.index(x) for x in ("GDoneLabel", "GReturn", "GErrorLabel", "GGotoDone"))
     except ValueError as ex:
@@ -423,8 +504,19 @@ def translate_invoke(repo):
     if not (d < r < e < g) or g != len(events) - 1 or [events.count(x) for x in (
             "GDoneLabel", "GReturn", "GErrorLabel", "GGotoDone")] != [1, 1, 1, 1] or "GFail" in events[d:]:
         raise Untranslatable("general_invoke_callback: control skeleton outside the translated shape: %r" % events)
-    head = open(GEN_INVOKE + ".snapshot").read().split("Definition invoke_events")[0]
-    return head + "Definition invoke_events : list gev :=\n  [ %s ].\n" % "; ".join(events)
+    if not re.search(r"\bgoto\s+done\s*;\s*$", body):
+        raise Untranslatable("general_invoke_callback: the function does not end with `goto done;`")
+    if len(re.findall(r"\bgoto\b", body)) != events.count("GFail") + 1 or len(re.findall(r"\breturn\b", body)) != 1:
+        raise Untranslatable("general_invoke_callback: a goto / return outside the translated shape")
+    lines, cur = [], "  [ "
+    for k, ev in enumerate(events):
+        item = ev + ("; " if k + 1 < len(events) else " ].")
+        if len(cur) + len(item) > 100:
+            lines.append(cur.rstrip())
+            cur = "    "
+        cur += item
+    lines.append(cur)
+    return INVOKE_HEAD + "Definition invoke_events : list gev :=\n" + "\n".join(lines) + "\n"
 
 
 def regen(ctx):
